@@ -372,6 +372,9 @@ class Live(Family):
                 d["btype"], d["status"], d["fill"], d["meta"] = "str", 20, rng.choice(FILLS_S[:4]) if sz <= 4 * MIB else "ascii", rng.choice(["f.gmi", "f.txt"])
             d.update({"mode": mode, "supplied": rng.random() < 0.5, "reader": rng.choice(["fast", "slow", "bursty"]) if sz <= 4 * MIB else rng.choice(["fast", "bursty"]),
                       "sndbuf": rng.choice([None, 4096, 16384]), "rcvbuf": rng.choice([None, 2048, 8192])})
+            if thorough and rng.random() < 0.12:
+                # a client that stops reading for 31 s (on the server's clock) in the middle of the download
+                d.update({"reader": "stall", "sndbuf": rng.choice([4096, 16384]), "rcvbuf": rng.choice([2048, 8192])})
             yield d
 
     def impl(self, case):
@@ -408,10 +411,10 @@ class Live(Family):
                 kw = {"mode": "start_server", "docroot": tmp, "supplied": case["supplied"]} if case["mode"] == "static" else {"mode": "factory", "handler": handler}
                 with tls_live.LiveServer(backend, sndbuf=case["sndbuf"], **kw) as srv:
                     r = tls_live.tls_fetch(srv.port, url.encode() + b"\r\n", reader=case["reader"], rcvbuf=case["rcvbuf"],
-                                           rng=random.Random(case["seed"]), sink=sink.add, timeout=120)
+                                           rng=random.Random(case["seed"]), sink=sink.add, timeout=120, stall=lambda: srv.advance(31))
                     used = srv.used_backend
                 g = sink.result()
-                g.update({"eof": r["eof"], "version": r["version"], "used": used})
+                g.update({"eof": r["eof"], "version": r["version"], "used": used, "elapsed": r.get("elapsed", 0)})
                 obs[backend] = g
         finally:
             H.StaticFileHandler.handle = orig
@@ -454,6 +457,14 @@ class Live(Family):
         for b in ("std", "pyo"):
             v = judge(f"live-{b}", obs[b], bytes.fromhex(w["header"]), w["blen"], w["bsha"])
             if v:
+                g = obs[b]
+                if v[0].endswith("-body-truncated") and g["eof"] != "clean" and (case["reader"] == "stall" or g.get("elapsed", 0) >= 29):
+                    # a distinct, stable signature for the download that is still in progress 30 s after the
+                    # server called transport.close(): asyncio's SSL transport gives up flushing (ssl_shutdown_timeout)
+                    return (f"live-{b}-cut-{'after-30s-of-close' if g['used'] == 'std' else 'slow-download'}",
+                            f"{b} backend: the client had received {g['blen']} of {w['blen']} body bytes when the connection was torn down "
+                            f"(end of stream: {g['eof']}); the download was still in progress 30 s after the server had queued the response and called close() "
+                            f"(reader: {case['reader']}, SO_SNDBUF {case['sndbuf']}, SO_RCVBUF {case['rcvbuf']}, {g.get('elapsed', 0)} s real time)")
                 return v
         if (obs["std"]["header"], obs["std"]["blen"], obs["std"]["bsha"]) != (obs["pyo"]["header"], obs["pyo"]["blen"], obs["pyo"]["bsha"]):
             return ("live-backends-differ", "the two TLS backends delivered different bytes for the same response")
